@@ -344,7 +344,7 @@ def validator_facts(repo):
     pre = [ast.unparse(s) for s in body[:3]]
     if pre != ["if isinstance(schema, _str_type):\n    schema = self._resolve_schema(schema)\n    if schema is None:\n        raise _SchemaRuleTypeError",
                "schema = schema.copy()",
-               "for field in schema:\n    schema[field] = self._resolve_rules_set(schema[field])"]:
+               "for field in schema:\n    schema[field] = self._resolve_rules_set(schema[field])\n    if schema[field] is None:\n        raise _SchemaRuleTypeError"]:
         raise TranslationError("F11", "__normalize_mapping", "prologue changed")
 
     def step_name(call):
@@ -538,17 +538,38 @@ def cache_facts(repo):
                 and ('target_validator' in ast.unparse(k1.args[0]) or ast.unparse(k1.args[0]) == 'self.validator.types_mapping')):
             raise TranslationError("F21", fname, "cache key is not (hash of the schema, hash of the target validator's types_mapping)")
         src = ast.unparse(fn)
-        if "_valid_schemas.add(_hash)" not in src or ("_hash in self.target_validator._valid_schemas" not in src
-                                                       and "_hash not in self.validator._valid_schemas" not in src):
-            raise TranslationError("F21", fname, "cache lookup / insert shape changed")
+        if "_remember_valid_schema(_hash)" not in src or "_valid_schemas.add(" in src or (
+                "_hash in self.target_validator._valid_schemas" not in src and "_hash not in self.validator._valid_schemas" not in src):
+            raise TranslationError("F21", fname, "cache lookup / insert shape changed (inserts go through _remember_valid_schema)")
         sites.append((fname.lstrip('_'), tag_of(k0)))
+    # what is remembered as valid did not rest on a registry: the guarded insert, and every resolution site records itself
+    mixin = find_class(mod, 'SchemaValidatorMixin')
+    rem = ast.unparse(find_func(mixin, '_remember_valid_schema'))
+    if "if not self.resolved_refs:\n        self.target_validator._valid_schemas.add(_hash)" not in rem or rem.count("_valid_schemas") != 1:
+        raise TranslationError("F21", "_remember_valid_schema", "the insert is not guarded by `not self.resolved_refs`")
+    for fname, needle in (('_check_with_bulk_schema', "self.known_rules_set_refs.add(value)\n            self.resolved_refs.add(True)"),
+                          ('_handle_schema_reference_for_validator', "self.known_schema_refs.add(value)\n    self.resolved_refs.add(True)"),
+                          ('_expand_rules_set_refs', "if result[k] is not None:\n                self.resolved_refs.add(True)")):
+        if needle not in ast.unparse(find_func(mixin, fname)):
+            raise TranslationError("F21", fname, "a resolved reference is not recorded in resolved_refs")
+    dv = ast.unparse(find_func(find_class(mod, 'DefinitionSchema'), '_validate'))
+    for needle in ("resolved_refs = isinstance(schema, _str_type)", "if isinstance(rules, _str_type):\n            resolved_refs = True",
+                   "self.schema_validator.resolved_refs.clear()\n    if resolved_refs:\n        self.schema_validator.resolved_refs.add(True)"):
+        if needle not in dv:
+            raise TranslationError("F21", "DefinitionSchema._validate", "top-level references are not recorded: missing `%s`" % needle)
     um = parse(repo, 'cerberus/utils.py')
+    mh = [n for n in um.body if isinstance(n, ast.FunctionDef) and n.name == 'mapping_hash']
+    if len(mh) != 1 or [ast.unparse(st) for st in mh[0].body] != ["return mapping_to_frozenset(schema)"]:
+        raise TranslationError("F21", "mapping_hash", "the cache key is not the frozen structure itself")
     fz = [n for n in um.body if isinstance(n, ast.FunctionDef) and n.name == 'mapping_to_frozenset']
     if len(fz) != 1:
         raise TranslationError("F21", "mapping_to_frozenset", "not found")
     src = ast.unparse(fz[0])
     typed = "isinstance(value, (bool, int, float))" in src and "aggregation[key] = (type(value), value)" in src \
         and "isinstance(value, Sequence) and (not isinstance(value, _str_type))" in src      # a string is not the sequence of its characters
+    sq = [n for n in um.body if isinstance(n, ast.FunctionDef) and n.name == '_sequence_to_tuple']
+    typed = typed and len(sq) == 1 and "isinstance(item, (bool, int, float))" in ast.unparse(sq[0]) \
+        and "result[i] = (type(item), item)" in ast.unparse(sq[0])                             # ... as members of a sequence too
     for needle in ("isinstance(value, Mapping)", "isinstance(value, Sequence)", "isinstance(value, Set)", "return frozenset(aggregation.items())"):
         if needle not in src:
             raise TranslationError("F21", "mapping_to_frozenset", "case list changed: missing " + needle)
@@ -614,7 +635,8 @@ def worklist_facts(repo):
         elif isinstance(st, ast.Assign) and len(st.targets) == 1 and isinstance(st.targets[0], ast.Name) and state is None \
                 and q in ast.unparse(st.value):
             state = st.targets[0].id
-            toks.append("state:" + ("hash_of_tuple" if ast.unparse(st.value) == "hash(tuple(%s))" % q else "?" + ast.unparse(st.value)))
+            toks.append("state:" + ("tuple" if ast.unparse(st.value) == "tuple(%s)" % q else
+                                    "hash_of_tuple" if ast.unparse(st.value) == "hash(tuple(%s))" % q else "?" + ast.unparse(st.value)))
         elif isinstance(st, ast.If) and state is not None and ast.unparse(st.test) == "%s in %s" % (state, seen):
             body = [ast.unparse(b) for b in st.body]
             exp = ["for field in %s:\n    self._error(field, errors.SETTING_DEFAULT_FAILED, 'Circular dependencies of default setters.')" % q, "break"]
